@@ -10,7 +10,9 @@
    np.log10 / 10**; every finite float is a real, rounding is not modelled.
 
    NOT proved here (see docs/C19.md): empymod itself (what [bipole] returns);
-   that the finite-difference quotient approximates the derivative. *)
+   that the finite-difference quotient approximates the derivative.
+   The model describes emg3d WITH the three repairs of docs/fix_C19_*.diff; the
+   as-found behaviour is kept as *_unfixed definitions and refuted below. *)
 From Coq Require Import ZArith Bool List String Reals QArith.
 From V Require Import Base.FieldSig Base.ExecQ Model.Layered Proofs.Layered Proofs.LayeredMerge.
 Import ListNotations.
